@@ -14,6 +14,9 @@ def plan(pid, tier, seed):
         else:
             mc = [{"module": "JavaCalls", "cfg": "JavaCalls_MC_thorough.cfg", "emit": True, "sample": 30000,
                    "properties": PROPS, "timeout": 1800, "pid": pid}]
+    if pid in ("C01", ""):
+        mc.append({"module": "JavaDecl", "cfg": "JavaDecl_MC_quick.cfg" if quick else "JavaDecl_MC_thorough.cfg", "emit": True,
+                   "sample": 1500 if quick else 40000, "properties": ["C01_IdentExact", "C01_FullExact"], "timeout": 1800, "pid": pid, "decl": True})
     return {
         "harness": "javamodel",
         "mc": mc,
@@ -28,8 +31,29 @@ def _call(recv_kind, recv):
             "e": {"k": "call", "text": "", "recvKind": recv_kind, "recv": recv, "callee": "m", "args": [], "type": ""}}
 
 
+def _decl_case(obj, h):
+    """callback history of the JavaDecl Machine -> one abstract unit"""
+    unit = {"kind": "class", "name": "K", "tparams": "", "ext": "", "extq": "", "impls": [], "anns": [], "members": []}
+    for ev in obj["events"]:
+        e = ev["e"]
+        if e == "file":
+            unit["kind"] = ev["kind"]
+        elif e == "classann":
+            unit["anns"].append({"name": ev["name"], "form": "marker", "args": []})
+        elif e == "member":
+            unit["members"].append({
+                "kind": "ctor" if ev["mk"] == "ctor" else "method", "name": ev["name"], "type": "" if ev["mk"] == "ctor" else "void",
+                "params": [dict(type=p["type"], name=p["name"]) for p in ev["params"]],
+                "mods": ["public"] if unit["kind"] == "class" else [], "generic": "", "body": [], "throws": [],
+                "anns": ([{"name": ev["ann"], "form": "marker", "args": []}] if ev["ann"] else []), "sameLine": bool(ev["same"])})
+    f = {"id": "f1", "pathKind": "main", "dirs": "p", "pkg": "p", "imports": [], "unit": unit}
+    return {"case": "tlc-" + h, "files": [f], "layout": int(h[:6], 16) % 10000, "runs": [], "fresh": []}
+
+
 def case_from_tlc(obj, h, g):
-    """TLC emits the callback history of the JavaCalls Machine; turn it into abstract files."""
+    """TLC emits the callback history of the JavaCalls / JavaDecl Machine; turn it into abstract files."""
+    if g.get("decl"):
+        return _decl_case(obj, h)
     files = []
     cur = None
     meth = None
